@@ -6,6 +6,7 @@ import (
 	"path/filepath"
 	"sort"
 	"strconv"
+	"strings"
 
 	"verif/tool/internal/build"
 )
@@ -14,6 +15,7 @@ import (
 // worker processes at GOMAXPROCS 1, 4 and 16; all log hashes (and tape lengths) must agree.
 func cmdSelftest(args []string) int {
 	seeds, reps := 30, 10
+	dump := "" // directory receiving the log of every execution, named by its hash (debugging aid)
 	var props []string
 	for i := 0; i < len(args); i++ {
 		switch args[i] {
@@ -23,6 +25,10 @@ func cmdSelftest(args []string) int {
 		case "--reps":
 			i++
 			reps, _ = strconv.Atoi(args[i])
+		case "--dump":
+			i++
+			dump = args[i]
+			os.MkdirAll(dump, 0o755)
 		default:
 			props = append(props, args[i])
 		}
@@ -65,7 +71,7 @@ func cmdSelftest(args []string) int {
 				}
 				for s := 0; s < seeds; s++ {
 					id++
-					pool.jobs <- &Job{ID: id, Prop: p, Profile: profiles[s%len(profiles)], Seed: base*7919 + int64(s)}
+					pool.jobs <- &Job{ID: id, Prop: p, Profile: profiles[s%len(profiles)], Seed: base*7919 + int64(s), WantLog: dump != ""}
 				}
 			}
 			pool.Stop()
@@ -79,6 +85,9 @@ func cmdSelftest(args []string) int {
 			}
 			if res.Trouble != "" {
 				h = "trouble:" + res.Trouble
+			}
+			if dump != "" {
+				os.WriteFile(filepath.Join(dump, fmt.Sprintf("%s-%d-%s.log", res.Prop, res.Seed, res.Hash)), []byte(strings.Join(res.Log, "\n")), 0o644)
 			}
 			if prev, ok := ref[k]; !ok {
 				ref[k] = h
